@@ -211,6 +211,9 @@ func checkV5JSON(jb []byte, agent string, hv []uint64, fvs [][]uint64) string {
 	if !json.Valid(jb) {
 		return "not valid JSON: " + clip(string(jb), 200)
 	}
+	if bytes.IndexByte(jb, '\n') >= 0 {
+		return "the payload holds a raw line feed: the line-framed sink receives it as several lines"
+	}
 	var doc struct {
 		AgentID string
 		Header  map[string]json.Number
